@@ -31,6 +31,18 @@ import (
 // remaining hosts must be the same sets (see historyCheck). Parallel rounds (token-aware
 // policies): with GOMAXPROCS > 1 routed picks run truly concurrently with a mutating
 // goroutine behind a spin barrier (see parallelRound); safety only.
+//
+// Extras (token-aware policies, tape-chosen; see pkModel.extras): keyspaces other than the
+// session's exist from the start and a schema event for one of them arrives right before
+// a comparison, so that its replicas are as current as the session keyspace's: it is then
+// also compared with the fresh policy of a session whose OWN keyspace it is (a reference
+// that does not go through KeyspaceChanged for a foreign keyspace). And windows of 1-6
+// state changes in which the metadata of one keyspace or of all cannot be read (the
+// schema source fails with a connection error, not with "no such keyspace"): the
+// reference policy cannot read a keyspace either whose last recomputation on the policy
+// under test fell into such a window; a policy that then keeps the replication it read
+// before is accepted as long as it applies it to the hosts it knows now; a host that was
+// removed is never offered for a keyspace whose replicas were recomputed since.
 
 func init() {
 	register(&Scenario{
@@ -46,7 +58,7 @@ func init() {
 			"Session (the history calls the policy the way session.go/events.go do: setState then HostUp/HostDown, AddHost(s), RemoveHost, KeyspaceChanged)",
 			"keyspace metadata source (tokenAwareHostPolicy.getKeyspaceMetadata / getKeyspaceName, set through the verif shim)",
 		},
-		Rule: "one run = one tape-chosen case: policy kind (round-robin | dc-aware | rack-aware | token-aware over one of these x ShuffleReplicas x NonLocalReplicasFallback), 1-3 datacenters x 1-3 racks, 1-8 initial hosts with 1-8 Murmur3 vnode tokens each, keyspace replication (SimpleStrategy rf 1-3 | NetworkTopologyStrategy rf 0-3 per existing dc | none), (token-aware: optionally one token per host instead of vnodes; NetworkTopologyStrategy rf up to 5, i.e. above the number of racks), then a history of 5-30 operations (pick sequences with/without routing key, rotation bursts, host down/up, node-up event, add host, remove host, keyspace change, host replaced by a new one in the same rack with the same or new tokens, keyspace altered and altered back); token-aware: after tape-chosen changes of the host set or the schema and at the end of the history a fresh policy fed the current host set must offer the same replica prefix and the same remaining hosts for keys on both sides of every token range boundary; then optionally 2-4 parallel rounds (1-3 goroutines walking routed picks while one goroutine applies 3-16 state changes, really concurrent when GOMAXPROCS > 1, interleaved per operation otherwise; safety only, then a checked pick and a history check), optionally followed by a scheduled phase (1-3 picking tasks, one NextHost call per step, against one mutating task); distinct = distinct canonical-log fingerprint; non-trivial = at least one pick sequence was iterated to exhaustion and checked while the policy knew >= 2 hosts (ops_done counts exactly those) and at least one state-changing operation was applied (counted as history.* faults)",
+		Rule: "one run = one tape-chosen case: policy kind (round-robin | dc-aware | rack-aware | token-aware over one of these x ShuffleReplicas x NonLocalReplicasFallback), 1-3 datacenters x 1-3 racks, 1-8 initial hosts with 1-8 Murmur3 vnode tokens each, keyspace replication (SimpleStrategy rf 1-3 | NetworkTopologyStrategy rf 0-3 per existing dc | none), (token-aware: optionally one token per host instead of vnodes; NetworkTopologyStrategy rf up to 5, i.e. above the number of racks), then a history of 5-30 operations (pick sequences with/without routing key, rotation bursts, host down/up, node-up event, add host, remove host, keyspace change, host replaced by a new one in the same rack with the same or new tokens, keyspace altered and altered back); token-aware: after tape-chosen changes of the host set or the schema and at the end of the history a fresh policy fed the current host set must offer the same replica prefix and the same remaining hosts for keys on both sides of every token range boundary; then optionally 2-4 parallel rounds (1-3 goroutines walking routed picks while one goroutine applies 3-16 state changes, really concurrent when GOMAXPROCS > 1, interleaved per operation otherwise; safety only, then a checked pick and a history check); token-aware extras (tape-chosen, 6 runs in 12): other keyspaces created and announced at the start, a KeyspaceChanged for a keyspace other than the session's right before 2 comparisons in 3 (1 in 3 of them altering it) and that keyspace compared also with the fresh policy of a session in it, operations of the kind: the metadata of ks | ks2 | every keyspace cannot be read (connection error) during the next 1-6 state changes; with a comparison after every ring or schema change while such a window is open or a keyspace was recomputed inside one; optionally followed by a scheduled phase (1-3 picking tasks, one NextHost call per step, against one mutating task); distinct = distinct canonical-log fingerprint; non-trivial = at least one pick sequence was iterated to exhaustion and checked while the policy knew >= 2 hosts (ops_done counts exactly those) and at least one state-changing operation was applied (counted as history.* faults)",
 	})
 }
 
@@ -210,10 +222,39 @@ type pkModel struct {
 	specs   map[string]*pkSpec
 	usedTok map[int]bool
 	ready   bool // the schema source answers (false while the initial hosts are added in unit-test order)
+
+	// extras: the run also has keyspaces other than the session's from the start, schema
+	// events for them right before comparisons, and windows in which keyspace metadata
+	// cannot be read (all of it tape-chosen; false = the runs the scenario always had)
+	extras bool
+	// unread: keyspace (or "*" = every keyspace) -> number of history operations for which
+	// its metadata still cannot be read (the schema query fails with a connection error)
+	unread map[string]int
+}
+
+// errPkUnreadable is what the schema source answers while a keyspace cannot be read: an
+// error that says nothing about the keyspace (it is not ErrKeyspaceDoesNotExist).
+var errPkUnreadable = fmt.Errorf("error querying keyspace schema: %w", gocql.ErrNoConnections)
+
+// unreadable: Session.KeyspaceMetadata answers for the empty name without a query.
+func (m *pkModel) unreadable(name string) bool {
+	return name != "" && (m.unread[name] > 0 || m.unread["*"] > 0)
+}
+
+func (m *pkModel) anyUnread() bool {
+	for _, n := range m.unread {
+		if n > 0 {
+			return true
+		}
+	}
+	return false
 }
 
 func (m *pkModel) clone() *pkModel {
-	c := &pkModel{cfg: m.cfg, specs: map[string]*pkSpec{}, usedTok: map[int]bool{}, ready: m.ready}
+	c := &pkModel{cfg: m.cfg, specs: map[string]*pkSpec{}, usedTok: map[int]bool{}, ready: m.ready, extras: m.extras, unread: map[string]int{}}
+	for k, v := range m.unread {
+		c.unread[k] = v
+	}
 	for _, h := range m.hosts {
 		hc := *h
 		c.hosts = append(c.hosts, &hc)
@@ -269,7 +310,13 @@ func (m *pkModel) metaFn(name string) (*gocql.KeyspaceMetadata, error) {
 	if !m.ready {
 		return nil, errors.New("not initialized")
 	}
-	s := m.specs[name]
+	if m.unreadable(name) {
+		return nil, errPkUnreadable
+	}
+	return pkReadSpec(m.specs[name], name)
+}
+
+func pkReadSpec(s *pkSpec, name string) (*gocql.KeyspaceMetadata, error) {
 	if s == nil {
 		return nil, gocql.ErrKeyspaceDoesNotExist
 	}
@@ -398,7 +445,11 @@ func (m *pkModel) genQuery(tp *kernel.Tape) pkQuery {
 	}
 	q := pkQuery{form: tp.Weighted(ws)}
 	if q.form > 0 {
-		q.ks = []string{"ks", "ks2", "nope"}[tp.Weighted([]int{5, 2, 1})]
+		ws := []int{5, 2, 1}
+		if m.extras {
+			ws = []int{3, 4, 1} // the other keyspace exists: route for it as often as for the session's
+		}
+		q.ks = []string{"ks", "ks2", "nope"}[tp.Weighted(ws)]
 	}
 	if q.form == 2 {
 		n := tp.Range(1, 4)
@@ -421,6 +472,9 @@ const (
 	opUpMany
 	opReplace // a host leaves and a new one joins in its place
 	opKSFlip  // a keyspace's replication is altered and altered back
+	// opMetaDown: the metadata of a keyspace (or of all) cannot be read for the next n
+	// state-changing operations (extras only)
+	opMetaDown
 )
 
 type pkKS struct {
@@ -437,6 +491,7 @@ type pkOp struct {
 	ks      pkKS
 	ksBack  *pkSpec // opKSFlip: the replication the keyspace returns to
 	picks   []pkQuery
+	n       int // opMetaDown: length of the window, in state-changing operations
 }
 
 // genOp draws one operation that is valid in the model's current state. mutOnly
@@ -451,7 +506,10 @@ func (m *pkModel) genOp(tp *kernel.Tape, noFaults, mutOnly bool) pkOp {
 			downs = append(downs, h)
 		}
 	}
-	ws := []int{6, 3, 3, 1, 2, 1, 1, 1, 0, 1, 1}
+	ws := []int{6, 3, 3, 1, 2, 1, 1, 1, 0, 1, 1, 0}
+	if m.extras && !noFaults {
+		ws[opMetaDown] = 2
+	}
 	if len(downs) >= 2 && !noFaults {
 		ws[opUpMany] = 2
 	}
@@ -513,6 +571,9 @@ func (m *pkModel) genOp(tp *kernel.Tape, noFaults, mutOnly bool) pkOp {
 		op.ks.name = []string{"ks", "ks2"}[tp.Weighted([]int{2, 1})]
 		op.ks.spec = m.genSpec(tp)
 		op.ksBack = m.specs[op.ks.name].clone()
+	case opMetaDown:
+		op.ks.name = []string{"ks", "ks2", "*"}[tp.Weighted([]int{2, 1, 2})]
+		op.n = tp.Range(1, 6)
 	}
 	return op
 }
@@ -599,12 +660,59 @@ type pkRun struct {
 	ksCurrent   map[string]bool // ... and the set of known hosts has not changed since
 	lastOp      string          // the last state-changing operation, for messages
 	histMode    int             // 0 check at the end only, 1 after some state changes, 2 after every one
+
+	// keyspace metadata that cannot be read (extras). The policy recomputes the replicas of
+	// a keyspace on KeyspaceChanged for it and, for the session keyspace, on every change
+	// of the host set: an attempt.
+	ksStale     map[string]bool    // the last attempt for the keyspace found its metadata unreadable
+	ksRecovered map[string]bool    // ... and a later attempt could read it again
+	ksRingMoved map[string]bool    // the host set changed while the keyspace was in ksStale
+	seenSpec    map[string]*pkSpec // the replication the last attempt that could read the keyspace saw (nil = no such keyspace)
 }
 
 // announced notes a KeyspaceChanged call on the policy under test.
 func (r *pkRun) announced(ks string) {
 	r.ksAnnounced[ks] = true
 	r.ksCurrent[ks] = true
+	r.attempt(ks)
+}
+
+// attempt notes that the policy under test was just made to recompute the replicas of ks,
+// with the schema source in the state the model is in.
+func (r *pkRun) attempt(ks string) {
+	if r.cfg.kind != pkTA {
+		return
+	}
+	if r.m.unreadable(ks) {
+		r.ksStale[ks] = true
+		delete(r.ksRecovered, ks)
+		r.k.Probe("replicas-recomputed-while-metadata-unreadable")
+		return
+	}
+	if r.ksStale[ks] {
+		delete(r.ksStale, ks)
+		delete(r.ksRingMoved, ks)
+		r.ksRecovered[ks] = true
+		r.k.Probe("replicas-recomputed-after-metadata-readable-again")
+	}
+	r.seenSpec[ks] = r.m.specs[ks].clone()
+}
+
+// refMeta is the schema source of a reference policy: a keyspace whose last attempt on the
+// policy under test failed because its metadata could not be read cannot be read by the
+// reference either (whatever the schema source says at this moment); every other keyspace
+// can. With asSeen the unreadable ones answer instead what the policy under test last
+// managed to read.
+func (r *pkRun) refMeta(asSeen bool) func(string) (*gocql.KeyspaceMetadata, error) {
+	return func(name string) (*gocql.KeyspaceMetadata, error) {
+		if r.ksStale[name] {
+			if asSeen {
+				return pkReadSpec(r.seenSpec[name], name)
+			}
+			return nil, errPkUnreadable
+		}
+		return pkReadSpec(r.m.specs[name], name)
+	}
 }
 
 // ringChanged notes that the set of known hosts changed: only the session keyspace's
@@ -613,6 +721,10 @@ func (r *pkRun) announced(ks string) {
 func (r *pkRun) ringChanged() {
 	for ks := range r.ksCurrent {
 		delete(r.ksCurrent, ks)
+	}
+	r.attempt(r.cfg.sessionKS)
+	for ks := range r.ksStale {
+		r.ksRingMoved[ks] = true
 	}
 }
 
@@ -692,7 +804,9 @@ func runPick(e *Env) {
 		cfg.sessionKS = "" // no default keyspace: replicas are computed on KeyspaceChanged only
 	}
 	m := &pkModel{cfg: cfg, specs: map[string]*pkSpec{}, usedTok: map[int]bool{}}
-	r := &pkRun{e: e, k: k, m: m, cfg: cfg, ksAnnounced: map[string]bool{}, ksCurrent: map[string]bool{}, lastOp: "initial population"}
+	r := &pkRun{e: e, k: k, m: m, cfg: cfg, ksAnnounced: map[string]bool{}, ksCurrent: map[string]bool{}, lastOp: "initial population",
+		ksStale: map[string]bool{}, ksRecovered: map[string]bool{}, ksRingMoved: map[string]bool{}, seenSpec: map[string]*pkSpec{}}
+	m.unread = map[string]int{}
 
 	switch cfg.kind {
 	case pkTA:
@@ -779,8 +893,31 @@ func runPick(e *Env) {
 
 	// ---- sequential history ----
 	if cfg.kind == pkTA {
-		r.histMode = tp.Weighted([]int{3, 2, 1})
+		// values 3..5: the same three modes with the extras (see pkModel.extras)
+		r.histMode = tp.Weighted([]int{3, 2, 1, 2, 2, 2})
+		if r.histMode >= 3 {
+			r.histMode -= 3
+			m.extras = true
+			e.Note("extras", true)
+		}
 		e.Note("hist_mode", r.histMode)
+	}
+	if m.extras {
+		// the cluster has keyspaces besides the session's, and the schema events that
+		// announced them (CREATE KEYSPACE) have arrived
+		for _, ks := range []string{"ks2", "ks"} {
+			if ks == cfg.sessionKS || !tp.Chance(3, 4) {
+				continue
+			}
+			op := pkOp{kind: opKS, ks: pkKS{ks, m.specs[ks]}}
+			if ks == "ks2" {
+				op.ks.spec = m.genSpec(tp)
+			}
+			if !r.apply(op, "") {
+				return
+			}
+			m.applyModel(op)
+		}
 	}
 	nOps := tp.Range(5, 30)
 	e.Note("ops", nOps)
@@ -791,7 +928,12 @@ func runPick(e *Env) {
 		}
 		m.applyModel(op)
 		// (host up/down reach the fallback policy only: they are seen by the next check)
-		if ringOrSchema := op.kind == opAdd || op.kind == opRemove || op.kind == opReplace || op.kind == opKS || op.kind == opKSFlip || op.kind == opNodeUp; ringOrSchema && (r.histMode == 2 || r.histMode == 1 && tp.Chance(1, 3)) {
+		ringOrSchema := op.kind == opAdd || op.kind == opRemove || op.kind == opReplace || op.kind == opKS || op.kind == opKSFlip || op.kind == opNodeUp
+		check := ringOrSchema && (r.histMode == 2 || r.histMode == 1 && tp.Chance(1, 3))
+		if ringOrSchema && (m.anyUnread() || len(r.ksStale) > 0) {
+			check = true // while and right after a window in which metadata cannot be read: every time
+		}
+		if check {
 			if !r.historyCheck(true) {
 				return
 			}
@@ -941,6 +1083,7 @@ func (r *pkRun) apply(op pkOp, who string) bool {
 			r.rec("%sadd %s %s/%s up=%v tokens=%s (in place of %s)", who, n.id, n.dc, n.rack, n.up, strings.Join(n.tokens, ","), h.id)
 			r.lastOp = "remove " + h.id + ", add " + n.id + " in its place"
 			ok = r.guard("AddHost", func() { r.pol.AddHost(n.info) })
+			r.attempt(r.cfg.sessionKS)
 			k.Fault("history.replace-host")
 		}
 	case opKS:
@@ -970,6 +1113,27 @@ func (r *pkRun) apply(op pkOp, who string) bool {
 		}
 	case opBurst:
 		ok = r.burst()
+	case opMetaDown:
+		what := "keyspace " + op.ks.name
+		if op.ks.name == "*" {
+			what = "every keyspace"
+		}
+		r.rec("%smetadata of %s cannot be read during the next %d state changes", who, what, op.n)
+		if op.n > m.unread[op.ks.name] {
+			m.unread[op.ks.name] = op.n
+		}
+		k.Fault("history.keyspace-metadata-unreadable")
+	}
+	if op.kind != opPick && op.kind != opBurst && op.kind != opMetaDown {
+		// one state change is over: the windows in which metadata cannot be read get shorter
+		for _, name := range []string{"*", "ks", "ks2"} {
+			if m.unread[name] > 0 {
+				if m.unread[name]--; m.unread[name] == 0 {
+					r.rec("%smetadata of %s can be read again", who, name)
+					k.Probe("metadata-readable-again")
+				}
+			}
+		}
 	}
 	return ok && k.Violation() == nil
 }
@@ -1127,6 +1291,18 @@ func (r *pkRun) pickAndCheck(q pkQuery) (first *pkHost, ok bool) {
 		seenID[h.id] = i
 		if !h.known {
 			k.Probe("offered-removed-host")
+			// RemoveHost takes the host out of the fallback policy, out of the token ring and
+			// out of the replicas of the session keyspace, and a KeyspaceChanged since then did
+			// the same for another keyspace - whether or not the keyspace metadata could be
+			// read at that moment. Only the replicas of another keyspace that the policy was
+			// not told about since may still name it (by design, see historyCheck).
+			if !routed || q.ks == cfg.sessionKS || !r.ksAnnounced[q.ks] || r.ksCurrent[q.ks] {
+				extra := ""
+				if r.ksStale[q.ks] {
+					extra = fmt.Sprintf(" (the metadata of keyspace %s could not be read when its replicas were last recomputed: the replicas of an older ring are still in use)", q.ks)
+				}
+				return viol("C11/removed-host-offered", "position %d: host %s was removed from the policy (RemoveHost) and the replicas of the query's keyspace were recomputed since%s", i, h.id, extra)
+			}
 		}
 	}
 	// (4) every up host the policy knows
@@ -1229,6 +1405,18 @@ func (r *pkRun) pickAndCheck(q pkQuery) (first *pkHost, ok bool) {
 		}
 		if len(p2) > 0 {
 			k.Probe("pick-token-aware-fallback-used")
+		}
+		if q.ks != cfg.sessionKS && fromStrategy && len(R) >= 2 {
+			k.Probe("pick-other-keyspace-2-or-more-replicas")
+			if len(p1)+len(p2) >= 2 {
+				k.Probe("pick-other-keyspace-2-or-more-replicas-first")
+			}
+		}
+		if m.unreadable(q.ks) {
+			k.Probe("pick-while-metadata-unreadable")
+		}
+		if r.ksStale[q.ks] {
+			k.Probe("pick-keyspace-recomputed-while-unreadable")
 		}
 		if len(seq) < len(p1)+len(p2) {
 			return viol("C11/replicas-not-first", "up replicas %s %s of the token were not all offered", pkIDs(p1), pkIDs(p2))
@@ -1493,16 +1681,81 @@ func pkContains(a []*gocql.HostInfo, h *gocql.HostInfo) bool {
 // session's on their KeyspaceChanged only: such a keyspace is compared when the policy
 // under test was never told about it (both policies then know the token's owner alone)
 // or was told after the last change of the host set (the fresh policy gets the same
-// notification); otherwise it is left out. A check in the middle of the history (mid)
-// looks at one keyspace only, the session's if there is one.
+// notification; a second fresh policy, of a session whose own keyspace it is, must agree
+// as well: signature suffix /other-keyspace); otherwise it is left out. A check in the
+// middle of the history (mid) looks at one keyspace only, the session's if there is one,
+// plus the keyspace of the schema event that precedes the check (extras) and those whose
+// metadata could not be read. Unreadable metadata: the reference policies cannot read a
+// keyspace for which the last recomputation on the policy under test failed that way
+// (they have no replica preference for it then, like the driver); if the policy under
+// test disagrees with that, it may still agree with a reference that reads what the
+// policy itself last read - the old replication applied to the CURRENT hosts - and only
+// if it agrees with neither is it a violation (signature suffix /unreadable-metadata):
+// it then orders hosts by the replicas of a ring it no longer has.
 func (r *pkRun) historyCheck(mid bool) bool {
 	cfg, k, m := r.cfg, r.k, r.m
 	if cfg.kind != pkTA {
 		return true
 	}
+	// extras: a schema event for a keyspace other than the session's arrives right before
+	// the comparison, so that its replicas are as current as the session keyspace's
+	focus := ""
+	if m.extras {
+		if tp := k.Tape; tp.Chance(2, 3) {
+			var others []string
+			for _, ks := range []string{"ks2", "ks"} {
+				if ks != cfg.sessionKS {
+					others = append(others, ks)
+				}
+			}
+			focus = others[tp.Next(len(others))]
+			op := pkOp{kind: opKS, ks: pkKS{focus, m.specs[focus]}}
+			if tp.Chance(1, 3) {
+				op.ks.spec = m.genSpec(tp) // ALTER KEYSPACE; otherwise e.g. a table of it changed
+			}
+			if !r.apply(op, "") {
+				return false
+			}
+			m.applyModel(op)
+			k.Probe("schema-event-for-other-keyspace-before-history-check")
+		}
+	}
 	known := m.known()
-	fresh := pkTokenAware(pkFallback(cfg, cfg.fb), cfg.shuffle, cfg.nonLocal)
-	gocql.VerifTokenAwareWire(fresh, func() string { return cfg.sessionKS }, m.metaFn)
+	// newRef builds a reference policy: told the current host set through the calls
+	// Session.init makes, by a session whose keyspace is sessKS, then told of the keyspaces
+	// in tell by schema events.
+	newRef := func(sessKS string, meta func(string) (*gocql.KeyspaceMetadata, error), tell []string) gocql.HostSelectionPolicy {
+		ref := pkTokenAware(pkFallback(cfg, cfg.fb), cfg.shuffle, cfg.nonLocal)
+		gocql.VerifTokenAwareWire(ref, func() string { return sessKS }, meta)
+		if r.partSet {
+			ref.SetPartitioner(pkPartitioner)
+		}
+		infos := make([]*gocql.HostInfo, 0, len(known))
+		for _, h := range known {
+			infos = append(infos, h.info)
+		}
+		if bulk, isBulk := ref.(interface{ AddHosts([]*gocql.HostInfo) }); isBulk {
+			bulk.AddHosts(infos)
+		} else {
+			for _, hi := range infos {
+				ref.AddHost(hi)
+			}
+		}
+		for _, h := range known {
+			if h.up {
+				ref.HostUp(h.info) // the HostInfo is shared and already says "up"
+			}
+		}
+		if sessKS != "" {
+			ref.KeyspaceChanged(gocql.KeyspaceUpdateEvent{Keyspace: sessKS})
+		}
+		for _, ks := range tell {
+			if ks != sessKS {
+				ref.KeyspaceChanged(gocql.KeyspaceUpdateEvent{Keyspace: ks, Change: "UPDATED"})
+			}
+		}
+		return ref
+	}
 
 	// the keyspaces that can be compared
 	var ksList, told []string
@@ -1523,43 +1776,36 @@ func (r *pkRun) historyCheck(mid bool) bool {
 		ksList = ksList[:len(ksList)-1]
 	}
 	if mid {
-		ksList = ksList[:1] // "ks" when it can be compared (always when it is the session keyspace)
-		if len(told) > 0 && told[0] != ksList[0] {
-			told = nil
+		// "ks" when it can be compared (always when it is the session keyspace), the keyspace of
+		// the schema event above and those whose metadata could not be read
+		keep := func(list []string, first string) []string {
+			var out []string
+			for _, ks := range list {
+				if ks == first || ks == focus || r.ksStale[ks] {
+					out = append(out, ks)
+				}
+			}
+			return out
+		}
+		first := ksList[0]
+		ksList = keep(ksList, first)
+		if len(told) > 0 && told[0] != first {
+			told = keep(told, "")
 		} else if len(told) > 1 {
-			told = told[:1]
+			told = keep(told, told[0])
 		}
 	}
+	isTold := func(ks string) bool {
+		for _, t := range told {
+			if t == ks {
+				return true
+			}
+		}
+		return false
+	}
 
-	if !r.guard("start-up notifications on a fresh policy", func() {
-		if r.partSet {
-			fresh.SetPartitioner(pkPartitioner)
-		}
-		infos := make([]*gocql.HostInfo, 0, len(known))
-		for _, h := range known {
-			infos = append(infos, h.info)
-		}
-		if bulk, isBulk := fresh.(interface{ AddHosts([]*gocql.HostInfo) }); isBulk {
-			bulk.AddHosts(infos)
-		} else {
-			for _, hi := range infos {
-				fresh.AddHost(hi)
-			}
-		}
-		for _, h := range known {
-			if h.up {
-				fresh.HostUp(h.info) // the HostInfo is shared and already says "up"
-			}
-		}
-		if cfg.sessionKS != "" {
-			fresh.KeyspaceChanged(gocql.KeyspaceUpdateEvent{Keyspace: cfg.sessionKS})
-		}
-		for _, ks := range told {
-			if ks != cfg.sessionKS {
-				fresh.KeyspaceChanged(gocql.KeyspaceUpdateEvent{Keyspace: ks, Change: "UPDATED"})
-			}
-		}
-	}) {
+	var fresh gocql.HostSelectionPolicy
+	if !r.guard("start-up notifications on a fresh policy", func() { fresh = newRef(cfg.sessionKS, r.refMeta(false), told) }) {
 		return false
 	}
 
@@ -1582,77 +1828,143 @@ func (r *pkRun) historyCheck(mid bool) bool {
 
 	kindName := "token-aware/" + pkKindName[cfg.fb]
 	limit := 4*len(m.hosts) + 8
-	var sig, msg string
 	var q pkQuery
 	var cell int
 	var seqA, seqB, rA, rB []*gocql.HostInfo
+	refWhat := ""
 	describe := func() string {
 		rA, _, _ = gocql.VerifTokenAwareReplicas(r.pol, q.ks, q.key)
-		return fmt.Sprintf("after %q: query %s (token in cell %d, i.e. between tokens %s and %s): the policy that went through the history offers %s (its replica list %s), a fresh policy told the same %d hosts %s offers %s (its replica list %s); keyspace %s is %s; policy %s",
-			r.lastOp, q, cell, pkTokenOfCell(cell), pkTokenOfCell((cell+1)%4096), pkIDs(m.toHosts(seqA)), pkIDs(m.toHosts(rA)), len(known), pkIDs(known), pkIDs(m.toHosts(seqB)), pkIDs(m.toHosts(rB)), q.ks, m.specs[q.ks], cfg)
+		note := ""
+		if r.ksStale[q.ks] {
+			note = fmt.Sprintf(" (its metadata could not be read when the policy last recomputed its replicas; what it last read is %s)", r.seenSpec[q.ks])
+		}
+		return fmt.Sprintf("after %q: query %s (token in cell %d, i.e. between tokens %s and %s): the policy that went through the history offers %s (its replica list %s), a fresh policy%s told the same %d hosts %s offers %s (its replica list %s); keyspace %s is %s%s; policy %s",
+			r.lastOp, q, cell, pkTokenOfCell(cell), pkTokenOfCell((cell+1)%4096), pkIDs(m.toHosts(seqA)), pkIDs(m.toHosts(rA)), refWhat, len(known), pkIDs(known), pkIDs(m.toHosts(seqB)), pkIDs(m.toHosts(rB)), q.ks, m.specs[q.ks], note, cfg)
 	}
 	bufA := make([]*gocql.HostInfo, 0, limit)
 	bufB := make([]*gocql.HostInfo, 0, limit)
+	maxReplicas := 0
+	// compare walks both policies for keyspace ks and every key; "" = they agree
+	compare := func(ref gocql.HostSelectionPolicy, ks string) (sig, msg string) {
+		for _, c := range cells {
+			cell = c
+			q = pkQuery{form: 2, ks: ks, key: pkCellKey(c)}
+			eq := pkExec(q)
+			var routedA, routedB, finA, nilA, finB, nilB bool
+			_, _, routedA = gocql.VerifTokenAwareReplicas(r.pol, q.ks, q.key)
+			rB, _, routedB = gocql.VerifTokenAwareReplicas(ref, q.ks, q.key)
+			seqA, finA, nilA = pkWalk(r.pol, eq, limit, bufA)
+			seqB, finB, nilB = pkWalk(ref, eq, limit, bufB)
+			switch {
+			case nilA || nilB:
+				return "C11/nil-host", "NextHost returned a selected host without HostInfo; " + describe()
+			case !finA || !finB:
+				return "C11/iteration-not-finite", fmt.Sprintf("NextHost still returns hosts after %d calls; ", limit) + describe()
+			case routedA != routedB:
+				return "C11/replicas-depend-on-history:" + kindName, fmt.Sprintf("one policy routes by token and the other does not (history %v, fresh %v); ", routedA, routedB) + describe()
+			}
+			// the prefix lengths, from the fresh policy's replica list
+			n1, n2, distinct := 0, 0, 0
+			if routedB {
+				for i, hi := range rB {
+					h := m.byInfo(hi)
+					if h == nil || pkContains(rB[:i], hi) {
+						continue
+					}
+					distinct++
+					if !h.up {
+						continue
+					}
+					if cfg.tier(h) == 0 {
+						n1++
+					} else if cfg.nonLocal {
+						n2++
+					}
+				}
+			}
+			if distinct > maxReplicas {
+				maxReplicas = distinct
+			}
+			if len(seqA) < n1+n2 || len(seqB) < n1+n2 {
+				return "C11/replicas-depend-on-history:" + kindName, fmt.Sprintf("the replicas-first prefix has %d+%d hosts but fewer were offered; ", n1, n2) + describe()
+			}
+			if !pkSameSet(seqA[:n1], seqB[:n1]) {
+				return "C11/replicas-depend-on-history:" + kindName, fmt.Sprintf("nearest-tier replicas (first %d hosts) differ: %s vs %s; ", n1, pkIDs(m.toHosts(seqA[:n1])), pkIDs(m.toHosts(seqB[:n1]))) + describe()
+			}
+			if !pkSameSet(seqA[n1:n1+n2], seqB[n1:n1+n2]) {
+				return "C11/replicas-depend-on-history:" + kindName, fmt.Sprintf("non-local replicas (hosts %d..%d) differ: %s vs %s; ", n1, n1+n2-1, pkIDs(m.toHosts(seqA[n1:n1+n2])), pkIDs(m.toHosts(seqB[n1:n1+n2]))) + describe()
+			}
+			if !cfg.shuffle {
+				for i := 0; i < n1+n2; i++ {
+					if seqA[i] != seqB[i] {
+						return "C11/replica-order-depends-on-history:" + kindName, fmt.Sprintf("without shuffling the first %d hosts must come in the same order, position %d differs; ", n1+n2, i) + describe()
+					}
+				}
+			}
+			if !pkSameSet(seqA[n1+n2:], seqB[n1+n2:]) {
+				return "C11/offered-set-depends-on-history:" + kindName, "the hosts offered after the replicas differ; " + describe()
+			}
+		}
+		return "", ""
+	}
+	var sig, msg string
+	otherAsSession, otherRF2, staleCompared, staleRingMoved, lenient := false, false, false, false, false
 	if !r.guard("Pick/NextHost (history check)", func() {
 		for _, ks := range ksList {
-			for _, c := range cells {
-				cell = c
-				q = pkQuery{form: 2, ks: ks, key: pkCellKey(c)}
-				eq := pkExec(q)
-				var routedA, routedB, finA, nilA, finB, nilB bool
-				_, _, routedA = gocql.VerifTokenAwareReplicas(r.pol, q.ks, q.key)
-				rB, _, routedB = gocql.VerifTokenAwareReplicas(fresh, q.ks, q.key)
-				seqA, finA, nilA = pkWalk(r.pol, eq, limit, bufA)
-				seqB, finB, nilB = pkWalk(fresh, eq, limit, bufB)
-				switch {
-				case nilA || nilB:
-					sig, msg = "C11/nil-host", "NextHost returned a selected host without HostInfo; "+describe()
-					return
-				case !finA || !finB:
-					sig, msg = "C11/iteration-not-finite", fmt.Sprintf("NextHost still returns hosts after %d calls; ", limit)+describe()
-					return
-				case routedA != routedB:
-					sig, msg = "C11/replicas-depend-on-history:"+kindName, fmt.Sprintf("one policy routes by token and the other does not (history %v, fresh %v); ", routedA, routedB)+describe()
-					return
+			// the references for this keyspace: the fresh policy of a session like the one under
+			// test and - for another keyspace the policy under test was told about since the
+			// host set last changed - the fresh policy of a session whose own keyspace it is:
+			// the replicas of a token must not depend on which of the two ways they were
+			// computed (a schema event for the keyspace, a host set change of a session in it)
+			type pkRef struct {
+				sessKS, what, suffix string
+				tell                 []string
+				pol                  gocql.HostSelectionPolicy
+			}
+			refs := []pkRef{{cfg.sessionKS, "", "", told, fresh}}
+			if ks != cfg.sessionKS && isTold(ks) {
+				refs = append(refs, pkRef{ks, fmt.Sprintf(" of a session whose keyspace is %s", ks), "/other-keyspace", nil, nil})
+				otherAsSession = true
+			}
+			for _, ref := range refs {
+				if ref.pol == nil {
+					ref.pol = newRef(ref.sessKS, r.refMeta(false), ref.tell)
 				}
-				// the prefix lengths, from the fresh policy's replica list
-				n1, n2 := 0, 0
-				if routedB {
-					for i, hi := range rB {
-						h := m.byInfo(hi)
-						if h == nil || !h.up || pkContains(rB[:i], hi) {
-							continue
-						}
-						if cfg.tier(h) == 0 {
-							n1++
-						} else if cfg.nonLocal {
-							n2++
-						}
+				refWhat = ref.what
+				maxReplicas = 0
+				sig, msg = compare(ref.pol, ks)
+				if sig != "" && r.ksStale[ks] && !strings.HasPrefix(sig, "C11/nil-host") && !strings.HasPrefix(sig, "C11/iteration") {
+					// the policy could not read the keyspace when it last recomputed its replicas:
+					// besides "no replica preference" (what the reference above does) it may go on
+					// with the replication it read before, applied to the hosts it knows NOW
+					refWhat = ref.what + " that reads what the policy last read"
+					sig2 := "?"
+					func() {
+						// (what it last read may name a datacenter that has no nodes any more, which
+						// the placement code does not survive: then this reference says nothing)
+						defer func() { recover() }()
+						sig2, _ = compare(newRef(ref.sessKS, r.refMeta(true), ref.tell), ks)
+					}()
+					if sig2 == "" {
+						sig, msg = "", ""
+						lenient = true
+					} else {
+						sig += "/unreadable-metadata"
 					}
+				} else if sig != "" && strings.Contains(sig, "-depend") {
+					sig += ref.suffix
 				}
-				if len(seqA) < n1+n2 || len(seqB) < n1+n2 {
-					sig, msg = "C11/replicas-depend-on-history:"+kindName, fmt.Sprintf("the replicas-first prefix has %d+%d hosts but fewer were offered; ", n1, n2)+describe()
+				if sig != "" {
 					return
 				}
-				if !pkSameSet(seqA[:n1], seqB[:n1]) {
-					sig, msg = "C11/replicas-depend-on-history:"+kindName, fmt.Sprintf("nearest-tier replicas (first %d hosts) differ: %s vs %s; ", n1, pkIDs(m.toHosts(seqA[:n1])), pkIDs(m.toHosts(seqB[:n1])))+describe()
-					return
+				if ks != cfg.sessionKS && isTold(ks) && !r.ksStale[ks] && maxReplicas >= 2 {
+					otherRF2 = true
 				}
-				if !pkSameSet(seqA[n1:n1+n2], seqB[n1:n1+n2]) {
-					sig, msg = "C11/replicas-depend-on-history:"+kindName, fmt.Sprintf("non-local replicas (hosts %d..%d) differ: %s vs %s; ", n1, n1+n2-1, pkIDs(m.toHosts(seqA[n1:n1+n2])), pkIDs(m.toHosts(seqB[n1:n1+n2])))+describe()
-					return
-				}
-				if !cfg.shuffle {
-					for i := 0; i < n1+n2; i++ {
-						if seqA[i] != seqB[i] {
-							sig, msg = "C11/replica-order-depends-on-history:"+kindName, fmt.Sprintf("without shuffling the first %d hosts must come in the same order, position %d differs; ", n1+n2, i)+describe()
-							return
-						}
-					}
-				}
-				if !pkSameSet(seqA[n1+n2:], seqB[n1+n2:]) {
-					sig, msg = "C11/offered-set-depends-on-history:"+kindName, "the hosts offered after the replicas differ; "+describe()
-					return
+			}
+			if r.ksStale[ks] {
+				staleCompared = true
+				if r.ksRingMoved[ks] {
+					staleRingMoved = true
 				}
 			}
 		}
@@ -1674,6 +1986,30 @@ func (r *pkRun) historyCheck(mid bool) bool {
 	}
 	if len(told) > 0 {
 		k.Probe("history-check-other-keyspace-current")
+	}
+	if otherAsSession {
+		k.Probe("history-check-other-keyspace-against-session-in-it")
+	}
+	if otherRF2 {
+		k.Probe("history-check-other-keyspace-2-or-more-replicas")
+	}
+	if m.anyUnread() {
+		k.Probe("history-check-while-metadata-unreadable")
+	}
+	if staleCompared {
+		k.Probe("history-check-keyspace-recomputed-while-unreadable")
+	}
+	if staleRingMoved {
+		k.Probe("history-check-keyspace-recomputed-while-unreadable-host-set-changed")
+	}
+	if lenient {
+		k.Probe("history-check-unreadable-keyspace-keeps-last-read-replication")
+	}
+	for _, ks := range ksList {
+		if r.ksRecovered[ks] {
+			k.Probe("history-check-keyspace-recomputed-after-readable-again")
+			break
+		}
 	}
 	if cfg.singleToken {
 		k.Probe("history-check-single-tokens")
